@@ -539,6 +539,10 @@ func (e *Engine) checkTyped(c *core.Ctx, id string) ([]core.Violation, map[strin
 				}
 				if cr.T.Harness != "" {
 					st.HarnessSkipped++
+					if strings.HasPrefix(cr.T.Harness, "no client method") && id == "C01" {
+						// the Handler interface has the operation, the generated client has no method for it
+						ps = append(ps, failure{i, problem{"every operation the server handles can be invoked through the generated client", fmt.Sprintf("%s: %s", cr.Call.TOp, cr.T.Harness), keyOf("typed/no client method/" + pkg + "/" + cr.Call.TOp)}, cr})
+					}
 					return
 				}
 				switch id {
